@@ -821,6 +821,11 @@ func ZZ_S09b_HedgePlacements() {
 			// (a hedge launched in the timer/result tie of one retry round may only get to run during the next
 			// round, so per-round timing is asserted in S09a; here only the totals are)
 			zzvrt.Assert(zzvrt.Now()-start >= int64(D), "hedge: a hedge never starts before the hedge delay has elapsed")
+			if strict {
+				// with never-matching cancel conditions a round ends only when both of its attempts have finished, so this
+				// hedge belongs to the round whose first attempt started last: the delay counts from *that* hedged execution's start
+				zzvrt.Assert(zzvrt.Now()-zzvrt.CellGet("roundStart") >= int64(D), "hedge: a hedge never starts before the hedge delay has elapsed since its own hedged execution began (every retry round)")
+			}
 			zzvrt.Sleep(d1)
 		} else {
 			zzvrt.CtrSet("roundStarts", 1)
